@@ -11,6 +11,7 @@ Inductive op :=
   | OpMkOf (w : Z) (n : option Z)
   | OpBin (code w : Z) (o : operand)
   | OpRBin (code w z : Z)
+  | OpCmp (code w : Z) (o : operand)
   | OpUn (code w : Z) (arg : option Z)
   | OpSlice (w : Z) (start : sstart) (stop step : option Z)
   | OpSym (w : Z) (msb : bool) (tl : nat)
@@ -55,6 +56,7 @@ Definition run_op (o : op) (v : Z) : list Z :=
   | OpMkOf w n => enc_iw (mk_of (mk v (Some w)) n)
   | OpBin code w o => enc_result enc_iw (run_bin code (mk v (Some w)) o)
   | OpRBin code w z => enc_iw (run_rbin code (mk v (Some w)) z)
+  | OpCmp code w o => [enc_b (iw_cmp code (mk v (Some w)) o)]
   | OpUn code w arg => run_un code (mk v (Some w)) arg
   | OpSlice w start stop step => enc_result enc_pyv (getitem (mk v (Some w)) start stop step)
   | OpSym w msb tl => enc_result (map Z.of_nat) (symbols msb tl (mk v (Some w)))
